@@ -54,7 +54,7 @@ pub fn full_alphabet() -> Vec<(String, Sym)> {
                 v.push((format!("get_peers want={w} src{src} tid{tl}"), vec![(src, format!("gp 1 {w} {t}"))]));
             }
             for port in ["7777", "implied"] {
-                for tok in ["valid", "of:1", "random", "short", "empty"] {
+                for tok in ["valid", "of:1", "random", "short", "empty", "plus"] {
                     let other = if src == 1 { "of:0" } else { tok };
                     let tok = if tok == "of:1" { other } else { tok };
                     // the client fetches a token first (that get_peers is checked as well)
@@ -256,7 +256,8 @@ pub fn run(tier: Tier) -> Report {
         rep.add("announce_202", f.refusals_202);
         let alpha = if *is_full { &full } else { &reduced };
         for (tag, sig, what) in &f.items {
-            if *tag != "C05" {
+            // refusing bad tokens with 203 is part of C05's statement too
+            if *tag != "C05" && *tag != "C06" {
                 continue;
             }
             let labels: Vec<&str> = syms.iter().map(|i| alpha[*i].0.as_str()).collect();
